@@ -15,7 +15,9 @@ import (
 
 func runScenario(t *testing.T, rec *chain.Recorder, idx int, sc *Scenario, seed int64) {
 	for i := range sc.Steps {
-		sc.Steps[i].V = mapVersion(sc.Steps[i].V)
+		if sc.Steps[i].Act == "update" {
+			sc.Steps[i].V = mapVersion(sc.Steps[i].V)
+		}
 	}
 	sc.Lv = mapVersion(sc.Lv)
 	w := newWorld(t, sc, seed+int64(idx))
